@@ -23,6 +23,9 @@ pub fn run_seed(master: u64, tag: u64, i: u64) -> u64 {
 #[derive(Clone, Debug)]
 pub struct Rng {
     s: [u64; 4],
+    /// run index this stream belongs to (0 for auxiliary streams); lets generators sweep a
+    /// value range systematically across a batch instead of only sampling it
+    pub index: u64,
 }
 
 impl Rng {
@@ -36,7 +39,7 @@ impl Rng {
         if s == [0; 4] {
             s[0] = 1;
         }
-        Rng { s }
+        Rng { s, index: 0 }
     }
 
     #[inline]
